@@ -518,8 +518,10 @@ def install_string_hooks(it):
             except Exception:
                 one = False
             if one and not is_abstract(repl):
-                return subj.mapped(lambda i: rx.compiled().sub(repl, i))
-            return subj.clone(imprecise=True, label=subj.label + ':re.sub')
+                t = subj.mapped(lambda i: rx.compiled().sub(repl, i))
+                t.ops = subj.ops + ('re.sub',)
+                return t
+            return subj.clone(imprecise=True, label=subj.label + ':re.sub', op='re.sub')
         if is_abstract(subj) or is_abstract(repl):
             return Unknown('re.sub')
         return rx.compiled().sub(repl, subj)
